@@ -28,14 +28,25 @@ def enforceable (an : Analyzer α) (domain : List (DomVar α)) : Analyzer α := 
 def toLinBounds (vb : List (String × Bounds α)) : Lin.BoundsMap α :=
   vb.map fun (n, b) => (n, ⟨b.lower, b.upper⟩)
 
+/-- the scratch context of the up-front collapse check (fix e35561f): the DECLARED domains, the bounds
+`BoundsAnalyzer::analyze(&domain, &[])` stores for them (no constraint, no `enforceable`, no `apply_to_domain`),
+an empty work list. -/
+def scratchState (m : Model α) (tol : α) (maxSteps : Nat) : Lin.St α :=
+  { queue := [], domain := m.domain,
+    bounds := toLinBounds (Analyzer.analyze m.domain [] tol maxSteps).variableBounds }
+
 /-- `Linearizer::linearize(model)` with the analyzer's tolerance and step limit as parameters. -/
 def linearize (m : Model α) (tol : α) (maxSteps : Nat) : Except Lin.LinErr (LinModel α) :=
-  match normalizedForBounds m.constraints with
-  | none => .error .fuel
-  | some cs =>
-    let an := enforceable (Analyzer.analyze m.domain cs tol maxSteps) m.domain
-    let domain := Analyzer.applyToDomain an m.domain
-    Lin.linearizeWith m (toLinBounds an.variableBounds) domain
+  -- the collapse check comes first, on the scratch context, which is then dropped
+  match Lin.collapseCheckAll m (scratchState m tol maxSteps) with
+  | .error e => .error e
+  | .ok _ =>
+    match normalizedForBounds m.constraints with
+    | none => .error .fuel
+    | some cs =>
+      let an := enforceable (Analyzer.analyze m.domain cs tol maxSteps) m.domain
+      let domain := Analyzer.applyToDomain an m.domain
+      Lin.linearizeWith m (toLinBounds an.variableBounds) domain
 
 end Compile
 end Rooc
